@@ -750,6 +750,45 @@ pub fn run_scen(sc: &Scen, strat: &StratSpec, seed: u64, replay: Option<Vec<u32>
 }
 
 pub fn explore(prop: &str, seed: u64, thorough: bool, st: &mut Stats) -> Vec<Replay> {
+    if prop == "C08" && seed % 8 == 0 {
+        // guards of zero-sized / sized resources under several dynamic ids: clone, clone_from
+        let zs = zst::gen(seed);
+        st.scenarios += 1;
+        if st.seeds == 0 {
+            st.first_seed = seed;
+        }
+        st.seeds += 1;
+        st.runs += 1;
+        let (vs, checks) = zst::run(&zs);
+        Stats::bump(&mut st.extra, "zst_guard_cases", 1);
+        Stats::bump(&mut st.extra, "zst_guard_cell_checks", checks);
+        let dg = crate::plan::fnv(serde_json::to_string(&zs).unwrap().as_bytes());
+        crate::driver::chain(dg);
+        if zs.ops.iter().any(|o| matches!(o, zst::ZOp::CloneFrom { .. })) {
+            st.nontrivial.insert(dg);
+        }
+        let mut found: Vec<Replay> = Vec::new();
+        for v in vs {
+            Stats::bump(&mut st.class_hits, &v.class, 1);
+            if !found.iter().any(|r| r.class == v.class) {
+                found.push(Replay {
+                    property: "C08".into(),
+                    family: "W8".into(),
+                    engine: "W".into(),
+                    mode: "zst-guards".into(),
+                    seed,
+                    scenario: serde_json::to_value(&zs).unwrap(),
+                    strategy: StratSpec::NoPreempt,
+                    run_seed: 0,
+                    trace: None,
+                    class: v.class.clone(),
+                    msg: v.msg.clone(),
+                    digest: dg,
+                });
+            }
+        }
+        return found;
+    }
     if prop == "C17" && seed % 4 == 0 {
         // big-table case
         let bs = big::gen(seed);
@@ -864,6 +903,11 @@ pub fn explore(prop: &str, seed: u64, thorough: bool, st: &mut Stats) -> Vec<Rep
 }
 
 pub fn eval_replay(r: &Replay) -> EvalOut {
+    if r.mode == "zst-guards" {
+        let zs: zst::ZScen = serde_json::from_value(r.scenario.clone()).expect("scenario");
+        let (vs, n) = zst::run(&zs);
+        return EvalOut { violations: vs, digest: 0, trace: vec![], steps: n };
+    }
     if r.mode == "big-table" {
         let bs: big::BigScen = serde_json::from_value(r.scenario.clone()).expect("scenario");
         let (vs, n) = big::run(&bs);
@@ -1142,6 +1186,212 @@ pub mod big {
             check_all(&t, &bad, &order, sc.reg.len(), &mut out);
         }
         out.truncate(4);
+        (out, checks)
+    }
+}
+
+// ------------------------------------------------------------------------------------------------
+// C08, guards of zero-sized and sized resources under several dynamic ids: `clone`, `clone_from`,
+// drops in any order. A boxed zero-sized value has no allocation of its own, so every cell of such
+// a type holds "the same" data address - whatever tells guards apart must not be that address.
+// Single task; the borrow-count model is checked against the real cells after every operation.
+
+pub mod zst {
+    use super::*;
+    use shred::ResourceId;
+
+    #[derive(Default)]
+    pub struct Zs;
+    #[derive(Default)]
+    pub struct Sz {
+        pub v: u64,
+    }
+
+    #[derive(Clone, Copy, Debug, Serialize, Deserialize, PartialEq)]
+    pub enum ZOp {
+        Shared { zst: bool, id: u8 },
+        Excl { zst: bool, id: u8 },
+        Clone { g: usize },
+        CloneFrom { a: usize, b: usize },
+        Drop { g: usize },
+    }
+
+    #[derive(Clone, Debug, Serialize, Deserialize, PartialEq)]
+    pub struct ZScen {
+        pub ops: Vec<ZOp>,
+    }
+
+    pub fn gen(seed: u64) -> ZScen {
+        let mut rng = Rng::sub(seed, 61);
+        let n = 4 + rng.below(28) as usize;
+        let zst_bias = rng.chance(2, 3);
+        let ops = (0..n)
+            .map(|_| {
+                let zst = if zst_bias { rng.chance(3, 4) } else { rng.chance(1, 2) };
+                match rng.below(12) {
+                    0..=3 => ZOp::Shared { zst, id: rng.below(3) as u8 },
+                    4 => ZOp::Excl { zst, id: rng.below(3) as u8 },
+                    5 | 6 => ZOp::Clone { g: rng.below(8) as usize },
+                    7..=9 => ZOp::CloneFrom { a: rng.below(8) as usize, b: rng.below(8) as usize },
+                    _ => ZOp::Drop { g: rng.below(8) as usize },
+                }
+            })
+            .collect();
+        ZScen { ops }
+    }
+
+    enum G<'w> {
+        Zr(Fetch<'w, Zs>),
+        Sr(Fetch<'w, Sz>),
+        Zw(FetchMut<'w, Zs>),
+        Sw(FetchMut<'w, Sz>),
+    }
+
+    fn rid(zst: bool, id: u8) -> ResourceId {
+        if zst {
+            ResourceId::new_with_dynamic_id::<Zs>(id as u64)
+        } else {
+            ResourceId::new_with_dynamic_id::<Sz>(id as u64)
+        }
+    }
+
+    pub fn run(sc: &ZScen) -> (Vec<Violation>, u64) {
+        let mut w = World::empty();
+        for id in 0..3u8 {
+            w.insert_by_id(rid(true, id), Zs);
+            w.insert_by_id(rid(false, id), Sz { v: 100 + id as u64 });
+        }
+        let w = &w;
+        let mut out: Vec<Violation> = Vec::new();
+        // model: shared count / exclusive flag per (zst, id)
+        let mut shared = [[0i32; 3]; 2];
+        let mut excl = [[false; 3]; 2];
+        // live guards with what the model says they stand for
+        let mut gs: Vec<(G, bool, u8, bool)> = Vec::new(); // (guard, zst, id, exclusive)
+        let mut checks = 0u64;
+        for (step, op) in sc.ops.iter().enumerate() {
+            match *op {
+                ZOp::Shared { zst, id } => {
+                    let must_panic = excl[zst as usize][id as usize];
+                    let r = catch_unwind(AssertUnwindSafe(|| if zst { w.try_fetch_by_id::<Zs>(rid(zst, id)).map(G::Zr) } else { w.try_fetch_by_id::<Sz>(rid(zst, id)).map(G::Sr) }));
+                    match (r, must_panic) {
+                        (Err(_), true) => {}
+                        (Err(p), false) => out.push(vio("C08", "unexpected-panic", format!("step {} ({:?}): a shared fetch panicked ({}) although the model has no exclusive guard on that resource", step, op, crate::util::payload_string(&p).lines().next().unwrap_or("")))),
+                        (Ok(Some(g)), false) => {
+                            shared[zst as usize][id as usize] += 1;
+                            gs.push((g, zst, id, false));
+                        }
+                        (Ok(Some(_)), true) => out.push(vio("C08", "aliasing-guard", format!("step {} ({:?}): a shared guard was handed out while an exclusive guard on the same resource is alive", step, op))),
+                        (Ok(None), _) => out.push(vio("C08", "conflict-returned-none", format!("step {} ({:?}): the try_ form returned None for a present resource", step, op))),
+                    }
+                }
+                ZOp::Excl { zst, id } => {
+                    let must_panic = excl[zst as usize][id as usize] || shared[zst as usize][id as usize] > 0;
+                    let r = catch_unwind(AssertUnwindSafe(|| if zst { w.try_fetch_mut_by_id::<Zs>(rid(zst, id)).map(G::Zw) } else { w.try_fetch_mut_by_id::<Sz>(rid(zst, id)).map(G::Sw) }));
+                    match (r, must_panic) {
+                        (Err(_), true) => {}
+                        (Err(p), false) => out.push(vio("C08", "unexpected-panic", format!("step {} ({:?}): an exclusive fetch panicked ({}) although the model has no guard on that resource (shared counts {:?})", step, op, crate::util::payload_string(&p).lines().next().unwrap_or(""), shared))),
+                        (Ok(Some(g)), false) => {
+                            excl[zst as usize][id as usize] = true;
+                            gs.push((g, zst, id, true));
+                        }
+                        (Ok(Some(_)), true) => out.push(vio("C08", "aliasing-guard", format!("step {} ({:?}): an exclusive guard was handed out while the model holds guards on the same resource (shared {:?}, exclusive {:?})", step, op, shared, excl))),
+                        (Ok(None), _) => out.push(vio("C08", "conflict-returned-none", format!("step {} ({:?}): the try_ form returned None for a present resource", step, op))),
+                    }
+                }
+                ZOp::Clone { g } => {
+                    if let Some(i) = (0..gs.len()).map(|k| (g + k) % gs.len().max(1)).find(|&i| !gs[i].3) {
+                        let (zst, id) = (gs[i].1, gs[i].2);
+                        let c = match &gs[i].0 {
+                            G::Zr(f) => G::Zr(f.clone()),
+                            G::Sr(f) => G::Sr(f.clone()),
+                            _ => unreachable!(),
+                        };
+                        shared[zst as usize][id as usize] += 1;
+                        gs.push((c, zst, id, false));
+                    }
+                }
+                ZOp::CloneFrom { a, b } => {
+                    // two shared guards of the same type; `a` becomes another guard of b's resource
+                    let n = gs.len();
+                    let cand = (0..n).map(|k| (a + k) % n.max(1)).find_map(|i| {
+                        if gs[i].3 {
+                            return None;
+                        }
+                        (0..n).map(|k| (b + k) % n).find(|&j| j != i && !gs[j].3 && gs[j].1 == gs[i].1).map(|j| (i, j))
+                    });
+                    if let Some((i, j)) = cand {
+                        let (zst, ida, idb) = (gs[i].1, gs[i].2, gs[j].2);
+                        let src = match &gs[j].0 {
+                            G::Zr(f) => G::Zr(f.clone()),
+                            G::Sr(f) => G::Sr(f.clone()),
+                            _ => unreachable!(),
+                        };
+                        // (the temporary clone above is dropped again below: net effect zero)
+                        match (&mut gs[i].0, &src) {
+                            (G::Zr(x), G::Zr(y)) => x.clone_from(y),
+                            (G::Sr(x), G::Sr(y)) => x.clone_from(y),
+                            _ => unreachable!(),
+                        }
+                        drop(src);
+                        shared[zst as usize][ida as usize] -= 1;
+                        shared[zst as usize][idb as usize] += 1;
+                        gs[i].2 = idb;
+                        if let G::Sr(x) = &gs[i].0 {
+                            if x.v != 100 + idb as u64 {
+                                out.push(vio("C08", "wrong-value", format!("step {} ({:?}): after clone_from the guard shows the value of another resource", step, op)));
+                            }
+                        }
+                    }
+                }
+                ZOp::Drop { g } => {
+                    if !gs.is_empty() {
+                        let i = g % gs.len();
+                        let (gd, zst, id, ex) = gs.remove(i);
+                        drop(gd);
+                        if ex {
+                            excl[zst as usize][id as usize] = false;
+                        } else {
+                            shared[zst as usize][id as usize] -= 1;
+                        }
+                    }
+                }
+            }
+            // the real cells against the model
+            for zst in [true, false] {
+                for id in 0..3u8 {
+                    checks += 1;
+                    let cell = unsafe { w.try_fetch_internal(rid(zst, id)) }.expect("resource present");
+                    let real = if let Ok(x) = cell.try_borrow_mut() {
+                        drop(x);
+                        Cell::Free
+                    } else if let Ok(x) = cell.try_borrow() {
+                        drop(x);
+                        Cell::Shared
+                    } else {
+                        Cell::Excl
+                    };
+                    let want = if excl[zst as usize][id as usize] {
+                        Cell::Excl
+                    } else if shared[zst as usize][id as usize] > 0 {
+                        Cell::Shared
+                    } else {
+                        Cell::Free
+                    };
+                    if real != want && out.is_empty() {
+                        out.push(vio(
+                            "C08",
+                            "cell-state",
+                            format!("after step {} ({:?}): the cell of the {} resource with dynamic id {} is {:?}, the model of the live guards says {:?}", step, op, if zst { "zero-sized" } else { "sized" }, id, real, want),
+                        ));
+                    }
+                }
+            }
+            if !out.is_empty() {
+                break;
+            }
+        }
+        drop(gs);
         (out, checks)
     }
 }
